@@ -327,7 +327,24 @@ fn prop_archive(c: &ArchiveCase, ctx: &Ctx) -> PResult {
     let inst = Install::new("c05");
     let mut files: Vec<(String, Vec<u8>)> = vec![];
     let entries: Vec<(String, i32)> = c.sheets.iter().enumerate().map(|(i, s)| (s.name.clone(), c.ids[i % c.ids.len()])).collect();
-    files.push(("exd/root.exl".into(), encode_exl(c.list_version, &entries)));
+    let mut list = encode_exl(c.list_version, &entries);
+    // every third root list carries rows that are no entries between its entries (a blank line, a remark without a
+    // comma, a row whose id is no number, a commented-out row): the sheets named behind them are listed all the same
+    if (c.list_version as i64 + c.sheets.len() as i64).rem_euclid(3) == 0 {
+        let text = String::from_utf8(list).unwrap();
+        let mut out = String::new();
+        for (i, line) in text.split("\r\n").enumerate() {
+            if i >= 1 && !line.is_empty() {
+                out.push_str(["", "# note", "Remark,abc", "#Commented,5"][(i + c.sheets.len()) % 4]);
+                out.push_str("\r\n");
+            }
+            out.push_str(line);
+            out.push_str("\r\n");
+        }
+        list = out.into_bytes();
+        ctx.class("archive:root-list-with-rows-that-are-no-entries");
+    }
+    files.push(("exd/root.exl".into(), list));
     for s in &c.sheets {
         files.push((format!("exd/{}.exh", s.name.to_lowercase()), encode_exh(&s.schema)));
         for (li, lang) in s.langs.iter().enumerate() {
